@@ -27,7 +27,7 @@ CONSTANTS
   EqTemplates = {}
   EqWrongs = {}
   CallKinds <- Calls_all
-  MaxCalls = 3
+  MaxCalls = 2
   Laws = {"mass"}
   TSources = {"param"}
 INVARIANT RegistryIndependent
